@@ -22,8 +22,11 @@ run({"NV_REFRESH_KNOWN": d}, tier)
 lines = open(f"{root}/KNOWN_FINDINGS.txt").read().splitlines()
 left = []
 for sig in sorted(stale):
-    slug = "".join(c if c.isalnum() and c.isascii() else "-" for c in sig)[:110]
-    src = os.path.join(d, f"{prop}-{slug}.json")
+    slug = "".join(c if c.isalnum() and c.isascii() else "-" for c in sig)[:90]
+    h = 0xcbf29ce484222325
+    for b in sig.encode():
+        h = ((h ^ b) * 0x100000001b3) & 0xffffffffffffffff
+    src = os.path.join(d, f"{prop}-{slug}-{h:016x}.json")
     line = next((l for l in lines if l.startswith(f"known: property={prop} sig={sig} replay=")), None)
     if not line or not os.path.exists(src):
         left.append(sig); continue
